@@ -301,7 +301,9 @@ func (c *columnKey) Apply(chunk commit.Chunk, r *commit.Reader) {
 		case commit.Delete:
 			fill.Remove(uint32(offset))
 			c.lock.Lock()
-			delete(c.seek, string(data[offset]))
+			if key := string(data[offset]); c.seek[key] == uint32(r.Offset) {
+				delete(c.seek, key) // only if the key still resolves to this row
+			}
 			c.lock.Unlock()
 		}
 	}
